@@ -130,6 +130,13 @@ func (tds *Conn) NewChannel() (*Channel, error) {
 func (tdsChan *Channel) Reset() {
 	tdsChan.RLock()
 	defer tdsChan.RUnlock()
+	tdsChan.reset()
+}
+
+// reset is Reset for callers already holding the read lock. Acquiring
+// the read lock recursively deadlocks as soon as a writer (Close) is
+// waiting for the lock between the two acquisitions.
+func (tdsChan *Channel) reset() {
 	if tdsChan.closed {
 		return
 	}
@@ -494,7 +501,7 @@ func (tdsChan *Channel) SendRemainingPackets(ctx context.Context) error {
 
 	// SendRemainingPackets is only called when completing sending
 	// packets to the server and preparing to receive the answer.
-	defer tdsChan.Reset()
+	defer tdsChan.reset()
 	return tdsChan.sendPackets(ctx, false)
 }
 
